@@ -66,6 +66,8 @@ def gen_world_case(rng, cid, profile):
             if b == n and nn > 1:
                 b = (n + 1) % nn
             ops.append({"op": "leavestream", "a": n, "b": b})
+        elif kind == "inject":
+            ops.append({"op": "inject", "n": n, "max": gen_max(rng, profile), "bytes": profile["packets"](rng, nodes, n)})
     return {"id": cid, "nodes": nodes, "ops": ops}
 
 
@@ -139,15 +141,15 @@ def c_sum(s):
     return "(%d%%nat, %s)" % (s["n"], coq_list(items))
 
 
-def c_obs(ob, reports=None):
+def c_obs(ob, reports=None, net=True):
     rep = "None"
     if reports is not None:
         rep = "(Some %s)" % coq_list([cs(r) for r in reports])
-    return ("(Build_obs %s %s %s %s %s %s)" % (
+    return ("(Build_obs %s %s %s %s %s %s %s)" % (
         coq_list([c_view(v) for v in ob["views"]]), coq_list([c_sum(s) for s in ob["summary"]]),
         coq_list([c_event(e) for e in ob["events"]]),
         coq_list(["(%s, %s)" % (cs(H(p["dst"])), cs(p["bytes"])) for p in ob["sent"]]),
-        coq_bool(ob["err"] != ""), rep))
+        coq_bool(ob["err"] != ""), rep, coq_bool(net)))
 
 
 def dst_index(case, inflight, idx):
@@ -180,7 +182,29 @@ def c_op(case, op, ob, nn):
         return "(WJoin %d %d %s %s)" % (op["a"] % nn, op["b"] % nn, c_nows(ob["nows"], op["a"] % nn), c_nows(ob["nows"], op["b"] % nn))
     if k == "leavestream":
         return "(WLeaveStream %d %d %s)" % (op["a"] % nn, op["b"] % nn, c_nows(ob["nows"], op["b"] % nn))
+    if k == "inject":
+        ex = ob.get("extra") or {}
+        n = op["n"] % nn
+        order = coq_list([cs(x) for x in ob["order"]])
+        if ex.get("dec") == "digest":
+            dg = coq_list(["(D %s %s %d %s)" % (cs(d["id"]), cs(d["addr"]), d["ver"], coq_bool(d["left"])) for d in ex["digest"]])
+            return "(WInject %d (PDigest %s %s %s %s) %d %s %s)" % (n, cs(ex["hid"]), cs(ex["haddr"]), coq_bool(ex["req"]), dg,
+                                                                  op["max"], c_nows(ob["nows"], n), order)
+        if ex.get("dec") == "delta":
+            parts = coq_list(["(Build_delta_part %s %s %d %s)" % (cs(p["id"]), cs(p["addr"]), len(p["entries"]),
+                                                                   coq_list([c_entry(e) for e in p["entries"]])) for p in ex["delta"]])
+            return "(WInject %d (PDelta %s %s %s) %d %s %s)" % (n, cs(ex["hid"]), cs(ex["haddr"]), parts, op["max"], c_nows(ob["nows"], n), order)
+        return "WNop"
     raise ValueError(k)
+
+
+def inject_net(case, ob):
+    """emitted packets / error flag of an injected packet are compared only when the packet decoded and its
+    header address is one of the cluster's (otherwise net.ResolveUDPAddr decides, which is not modelled)"""
+    ex = ob.get("extra") or {}
+    if not ex.get("dec"):
+        return False
+    return ex.get("haddr") in [n["addr"] for n in case["nodes"]]
 
 
 def case_to_coq(case, out):
@@ -195,7 +219,14 @@ def case_to_coq(case, out):
         reports = None
         if k in ("deliver", "dup") and ob.get("extra") and "reports" in ob["extra"]:
             reports = ob["extra"]["reports"]
-        steps.append("(%s, %s)" % (c_op(case, op, ob, nn), c_obs(ob, reports)))
+        net = True
+        if k == "inject":
+            net = inject_net(case, ob)
+            ex = ob.get("extra") or {}
+            reports = ex.get("reports") if ex.get("dec") else None
+            if not ex.get("dec"):
+                ob = dict(ob); ob["err"] = ""
+        steps.append("(%s, %s)" % (c_op(case, op, ob, nn), c_obs(ob, reports, net)))
         if k in ("deliver", "drop") and not (ob.get("skipped") and inflight == 0):
             inflight -= 1
         inflight += len(ob["sent"])
@@ -205,7 +236,7 @@ def case_to_coq(case, out):
 
 def cases_file(cases, outs):
     body = ["From Coq Require Import List String NArith ZArith Bool.",
-            "From Piko Require Import Base.Maps Base.Strs Gossip.Types Gossip.Local Gossip.Apply Gossip.Codec Gossip.World Run.Run_Gossip.",
+            "From Piko Require Import Base.Maps Base.Strs Gossip.Types Gossip.Local Gossip.Apply Gossip.Codec Gossip.World Run.Run_Gossip Run.Run_Codec.",
             "Import ListNotations. Open Scope string_scope. Open Scope list_scope. Open Scope N_scope.",
             "Definition cases : list gcase := ["]
     body.append(";\n".join(case_to_coq(c, o) for c, o in zip(cases, outs)))
